@@ -224,21 +224,21 @@ PROPERTY_SCOPE: Dict[str, List[str]] = {
     'C01': ['rdm.calc.', 'rdm.combine.from_partials'],
     'C02': ['rdm.calc.calc_rdm_crossnobis', 'rdm.calc.calc_rdm_poisson_cv', 'rdm.calc._calc_rdm_crossnobis_single',
             'rdm.calc._gen_default_cv_descriptor'],
-    'C03': ['rdm.compare.'],
+    'C03': ['rdm.compare.', 'util.matrix.row_col', 'util.matrix._row_col', 'util.matrix.pairwise_contrast_sparse'],
     'C04': ['inference.evaluate.'],
     'C05': ['inference.crossvalsets.'],
     'C06': ['util.inference_util.'],
-    'C07': ['inference.noise_ceiling.'],
-    'C08': ['model.'],
-    'C09': ['inference.bootstrap.'],
-    'C10': ['rdm.rdms.', 'util.descriptor_utils.', 'util.rdm_utils.', 'rdm.combine.from_partials'],
-    'C11': ['data.base.', 'data.dataset.', 'data.ops.', 'util.data_utils.'],
+    'C07': ['inference.noise_ceiling.', 'util.pooling.'],
+    'C08': ['model.', 'util.pooling.', 'util.matrix.get_v'],
+    'C09': ['inference.bootstrap.', 'inference.boot_testset.'],
+    'C10': ['rdm.rdms.', 'util.descriptor_utils.', 'util.rdm_utils.', 'rdm.combine.from_partials', 'rdm.pairs.'],
+    'C11': ['data.base.', 'data.dataset.', 'data.ops.', 'util.data_utils.', 'data.computations.'],
     'C13': ['rdm.combine.'],
     'C14': ['data.noise.'],
     'C15': ['rdm.calc_unbalanced.'],
     'C16': ['io.hdf5.', 'io.pkl.', 'util.file_io.', 'inference.result.'],
     'C17': ['rdm.transform.'],
-    'C18': ['simulation.'],
+    'C18': ['simulation.', 'util.matrix.indicator', 'util.matrix.pairwise_contrast'],
     'C19': ['util.searchlight.'],
     'C20': ['io.bids.', 'io.spm.', 'io.fmriprep.', 'io.mne.', 'io.meadows.', 'io.optional.', 'io.pandas.', 'util.build_rdm.'],
 }
@@ -262,6 +262,7 @@ def run(ctx, obs, prop: str):
     obs.analysed['sweep_dtype_buffers'] = dtype_inherit(ctx, obs, pre + EXTRA_DTYPE_SCOPE.get(prop, []))
     obs.analysed['sweep_inplace_div'] = inplace_division(ctx, obs, pre)
     obs.analysed['sweep_sorted_arg'] = sorted_argument(ctx, obs, pre)
+    obs.analysed['sweep_loop_state'] = loop_state(ctx, obs, pre)
     obs.analysed['sweep_fwd_default_sites'] = a
     obs.analysed['sweep_par_live_params'] = b
     if b == 0:
@@ -624,3 +625,74 @@ def _sortedness(e, r, depth):
             return 'sorted', 'all reaching definitions are sorted'
         return 'unknown', 'some reaching definition is not recognisably sorted'
     return 'unknown', 'expression not recognised'
+
+
+# ------------------------------------------------------------------------------------------------------ LOOP-STATE
+_FRESH_ALLOC = {'zeros', 'ones', 'empty', 'full', 'zeros_like', 'ones_like', 'empty_like', 'full_like', 'array', 'eye'}
+
+
+def loop_state(ctx, obs, prefixes: Sequence[str], rule='LOOP-STATE') -> int:
+    """A work array allocated BEFORE a loop, written inside the loop only at positions that depend on the loop variable, and read as
+    a whole inside the same loop (passed to a call, returned by a closure defined in the loop) carries the entries written by
+    earlier iterations into later ones.  Accepted: arrays read only after the loop (accumulators), arrays re-allocated or fully
+    reset inside the loop."""
+    prog = ctx.prog
+    n = 0
+    for q, f in sorted(prog.functions.items()):
+        if not _in_scope(q, prefixes) or f.parent is not None:
+            continue
+        top_allocs = {}
+        for s in ast.walk(f.node):
+            if isinstance(s, ast.Assign) and isinstance(s.targets[0], ast.Name) and isinstance(s.value, ast.Call) \
+                    and _leafname(s.value.func) in _FRESH_ALLOC:
+                top_allocs.setdefault(s.targets[0].id, []).append(s)
+        if not top_allocs:
+            continue
+        for lp in [x for x in ast.walk(f.node) if isinstance(x, ast.For)]:
+            lvars = {x.id for x in ast.walk(lp.target) if isinstance(x, ast.Name)}
+            inside = [x for st in lp.body for x in ast.walk(st)]      # the else-clause runs after the loop
+            rebinds = {t.id for x in inside if isinstance(x, (ast.Assign, ast.AnnAssign, ast.AugAssign))
+                       for t in (x.targets if isinstance(x, ast.Assign) else [x.target]) if isinstance(t, ast.Name)}
+            for name, allocs in top_allocs.items():
+                if name in rebinds:
+                    continue
+                # allocated outside this loop only
+                if any(any(a is x for x in inside) for a in allocs):
+                    continue
+                if not any(a.lineno < lp.lineno for a in allocs):
+                    continue
+                stores = [s for s in inside if isinstance(s, (ast.Assign, ast.AugAssign))
+                          and isinstance((s.targets[0] if isinstance(s, ast.Assign) else s.target), ast.Subscript)
+                          and isinstance((s.targets[0] if isinstance(s, ast.Assign) else s.target).value, ast.Name)
+                          and (s.targets[0] if isinstance(s, ast.Assign) else s.target).value.id == name]
+                if not stores:
+                    continue
+                tg = [(s.targets[0] if isinstance(s, ast.Assign) else s.target) for s in stores]
+                partial = [t for t in tg if any(isinstance(x, ast.Name) and x.id in lvars for x in ast.walk(t.slice))]
+                full_reset = [t for t in tg if isinstance(t.slice, ast.Slice) and t.slice.lower is None and t.slice.upper is None] or \
+                    [c for c in inside if isinstance(c, ast.Call) and isinstance(c.func, ast.Attribute) and c.func.attr == 'fill'
+                     and isinstance(c.func.value, ast.Name) and c.func.value.id == name]
+                if not partial or full_reset:
+                    continue
+                store_bases = {id(t.value) for t in tg}
+                whole_reads = [x for x in inside if isinstance(x, ast.Name) and x.id == name and isinstance(x.ctx, ast.Load)
+                               and id(x) not in store_bases and not _is_sub_base(x, inside)]
+                n += 1
+                con = f'`{name}` does not carry entries from one iteration of the loop at line {lp.lineno} into the next'
+                if whole_reads:
+                    obs.bad(rule, q, con, f'`{name}` is allocated once before the loop (line {allocs[0].lineno}), `{norm(stores[0])[:50]}` writes '
+                            f'only the entries of the current iteration, and `{name}` is then used as a whole (line {whole_reads[0].lineno}): '
+                            f'entries written by earlier iterations are still set', where(prog, f, whole_reads[0]))
+                else:
+                    obs.ok(rule, q, con, 'read only element-wise / after the loop', where(prog, f, lp))
+    return n
+
+
+def _is_sub_base(name_node, nodes) -> bool:
+    """the Name is the base of a Subscript (element access), not a whole-array use"""
+    for x in nodes:
+        if isinstance(x, ast.Subscript) and x.value is name_node:
+            return True
+        if isinstance(x, ast.Attribute) and x.value is name_node and x.attr in ('shape', 'size', 'ndim', 'dtype'):
+            return True
+    return False
